@@ -15,15 +15,15 @@ import (
 )
 
 type c02Case struct {
-	Config    string `json:"config"`
-	LoginAs   string `json:"login_as"`
-	User      string `json:"normalised_user"`
-	Target    string `json:"target"`
-	CertType  string `json:"cert_type"`
-	Key       string `json:"key"`
-	Status    int    `json:"status"`
-	Entry     string `json:"credential,omitempty"`
-	Principal string `json:"principal_or_cn,omitempty"`
+	Config    string   `json:"config"`
+	LoginAs   string   `json:"login_as"`
+	User      string   `json:"normalised_user"`
+	Target    string   `json:"target"`
+	CertType  string   `json:"cert_type"`
+	Key       string   `json:"key"`
+	Status    int      `json:"status"`
+	Entry     string   `json:"credential,omitempty"`
+	Principal string   `json:"principal_or_cn,omitempty"`
 	Defects   []string `json:"defects,omitempty"`
 }
 
@@ -70,7 +70,8 @@ func TestVerifC02(t *testing.T) {
 		opts verifStateOpts
 		ext  map[string]string
 	}
-	extA := map[string]string{"login@github.com": "$USERNAME", "permit-as-${USERNAME}": "x-${USERNAME}-y", "literal-ext": "fixed value"}
+	extA := map[string]string{"login@github.com": "$USERNAME", "permit-as-${USERNAME}": "x-${USERNAME}-y", "literal-ext": "fixed value",
+		"no-touch-required": "", "flag-for-$USERNAME@example.com": ""} // flag-style extensions have an empty value
 	extYAML := func(m map[string]string) string {
 		s := "    ssh_cert_config:\n        extensions:\n"
 		for k, v := range m {
@@ -225,6 +226,47 @@ func TestVerifC02(t *testing.T) {
 				}
 			}
 		}
+		// the CA signing device starts failing (HSM / agent gone): nothing that is not properly signed may be handed out
+		{
+			user := names[0]
+			cookie, _ := verifLogin(env, user, users[user])
+			env.SetSignerFault(true)
+			for _, k := range keys {
+				for _, ct := range []string{"ssh", "x509", "x509-kubernetes"} {
+					kd := k.PKIX
+					if ct == "ssh" {
+						kd = k.SSH
+					}
+					q := verifCertReq(user, ct, kd, "1h", nil)
+					q.Cookies = map[string]string{"auth_cookie": cookie}
+					resp := env.Do(q.Build())
+					rep.Eval(fmt.Sprintf("%s|signer-fault|%s|%s|%d", c.name, k.Name, ct, resp.Code/100))
+					rep.Count("signer_fault_requests", 1)
+					cs := c02Case{Config: c.name, LoginAs: user, User: user, Target: user, CertType: ct, Key: k.Name, Status: resp.Code, Entry: "cookie (CA signer failing)"}
+					if resp.Code != 200 {
+						continue
+					}
+					var defects []string
+					if ct == "ssh" {
+						if cert, err := verifParseSSHCert(resp.Body); err != nil {
+							defects = []string{"unparsable SSH certificate: " + err.Error()}
+						} else {
+							sub, _, _, _, _ := ssh.ParseAuthorizedKey([]byte(k.SSH))
+							defects = verifCheckSSHCert(cert, user, sub, trust, c.ext, time.Now())
+						}
+					} else if cert, err := verifParseX509PEM(resp.Body); err != nil {
+						defects = []string{"unparsable X.509 certificate: " + err.Error()}
+					} else {
+						defects = verifCheckX509UserCert(cert, user, k.Pub, trust)
+					}
+					if len(defects) > 0 {
+						cs.Defects = defects
+						rep.Violate("C02/bad-certificate-while-signer-fails/"+ct, "answered 200 while the CA signer was failing, with something that is not a properly signed certificate: "+strings.Join(defects, "; "), cs)
+					}
+				}
+			}
+			env.SetSignerFault(false)
+		}
 		if len(env.Panics) > 0 {
 			rep.Count("panics", len(env.Panics))
 		}
@@ -234,6 +276,7 @@ func TestVerifC02(t *testing.T) {
 	rep.Floor("issued_x509-kubernetes", 20)
 	rep.Floor("cross_user_requests", 20)
 	rep.Floor("issued_to_basic_auth_requests", 20)
+	rep.Floor("signer_fault_requests", 30)
 	for _, k := range []string{"rsa2048", "rsa4096", "ecP-256", "ed25519"} {
 		rep.Floor("issued_key_"+k, 3)
 	}
